@@ -72,7 +72,7 @@ class State:
 
 
 class Oblig:
-    __slots__ = ("kind", "fn", "label", "ordinal", "ln", "total", "failed", "samples", "contexts", "ok_samples")
+    __slots__ = ("kind", "fn", "label", "ordinal", "ln", "total", "failed", "samples", "contexts", "ok_samples", "clean_failed")
 
     def __init__(self, kind, fn, label, ordinal, ln):
         self.kind = kind
@@ -81,6 +81,7 @@ class Oblig:
         self.ordinal = ordinal
         self.ln = ln
         self.total = 0
+        self.clean_failed = 0      # failures on paths that no unmodelled callee had touched before (they stand as they are)
         self.failed = 0
         self.samples = []
         self.ok_samples = []
@@ -397,6 +398,8 @@ class Engine(MemMixin, OpsMixin, ExecMixin):
         o.contexts.add(self.entry_name)
         if not ok:
             o.failed += 1
+            if st is not None and not st.ghost.get("unmod"):
+                o.clean_failed += 1
             if len(o.samples) < 3:
                 samp = {"entry": self.entry_name, "detail": detail,
                         "context": frame.ctxname if frame else None}
@@ -601,6 +604,16 @@ class Engine(MemMixin, OpsMixin, ExecMixin):
         """for non-negative v: v = c*q + r, 0<=r<c; returns (q Lin, r Lin)"""
         if v_lin.is_const():
             return Lin.const(v_lin.c // c), Lin.const(v_lin.c % c)
+        if c > 1 and v_lin.t:
+            # a common factor of the dividend and the divisor cancels: floor(g*x / (g*m)) = floor(x / m), remainder g * (x mod m)
+            from math import gcd
+            g = c
+            for k in v_lin.t.values():
+                g = gcd(g, abs(k))
+            g = gcd(g, abs(v_lin.c))
+            if 1 < g < c:
+                q, r = self.divmod_const(st, Lin({s_: k // g for s_, k in v_lin.t.items()}, v_lin.c // g), c // g)
+                return q, r.scale(g)
         if c > 0 and v_lin.c % c == 0 and all(k % c == 0 for k in v_lin.t.values()):
             # exact division: every term is a multiple of c
             return Lin({s: k // c for s, k in v_lin.t.items()}, v_lin.c // c), Lin.const(0)
